@@ -25,6 +25,7 @@ type ClientServerStream struct {
 	clientSend chan any
 	trailer    metadata.MD
 	closed     context.CancelFunc
+	closeM     sync.Mutex // guards closeErr
 	closeErr   error
 }
 
@@ -51,7 +52,9 @@ func (s *ClientServerStream) Close(err error) {
 	s.headerM.Unlock()
 
 	simhook.Yield("wrap.close.status")
+	s.closeM.Lock()
 	s.closeErr = err
+	s.closeM.Unlock()
 	close(s.serverSend)
 	simhook.Yield("wrap.close.cancel")
 	s.closed()
@@ -60,6 +63,10 @@ func (s *ClientServerStream) Close(err error) {
 
 // safe to call if s.serverSend is closed
 func (s *ClientServerStream) closeErrLocked() error {
+	// this is also called when the stream's context ended for another reason than Close (the caller cancelled it),
+	// possibly while Close is running, so reading closeErr needs its own synchronisation
+	s.closeM.Lock()
+	defer s.closeM.Unlock()
 	if s.closeErr == nil {
 		return io.EOF
 	}
